@@ -437,7 +437,7 @@ def table(pid, tier):
         T = dict(mc=[(i, inv, ["C04_Final"]) for i in insts], gen=[(i, 700 if q else 15000) for i in insts[:2]],
                  free=[(i, 80 if q else 600) for i in insts])
     elif pid == "C18":
-        insts = [burst(tier, "oldest", 1), middleware(tier, 1), effects(tier, 0), stop_race(tier, "latest", 0)]
+        insts = [burst(tier, "oldest", 1), middleware(tier, 2), effects(tier, 0), stop_race(tier, "latest", 0)]
         inv = ["C18_Balance", "C06_Conservation"]
         T = dict(mc=[(i, inv, ["C18_Monotone"]) for i in insts], gen=[(i, 500 if q else 5000) for i in insts],
                  free=[(i, 60 if q else 400) for i in insts])
